@@ -6,3 +6,11 @@ def PrefilledTargetResume(**f):
     crash; resume -> the store operation looks complete and is skipped, stale chunks stay.  Matches only: the program
     stores into a pre-populated existing target, the run was resumed, and the wrong values are in that target."""
     return bool(f.get("resumed") and f.get("prefilled_target") and f.get("kind") == "values")
+
+
+def LegacyFuseStreamArg(**f):
+    """F17: the legacy optimizer (simple_optimize_dag -> blockwise.fuse) feeds an ITERATOR of keys (a reduction's stream
+    argument) to the predecessor's key function.  Matches only: legacy optimizer, failure inside the task with exactly
+    that signature."""
+    return bool(f.get("optimizer") == "simple" and f.get("kind") == "optimized-run-error"
+                and "list_iterator" in str(f.get("error")) and "coords" in str(f.get("error")))
